@@ -2,8 +2,10 @@
 // workers' atomic operations.  The REAL templates from Tools.hh run on real threads; a controlled
 // scheduler (c16_sched.hh) decides who performs the next atomic operation.  DFS enumerates every
 // interleaving for tiny configurations; random / PCT priorities sample larger ones.
+#include <algorithm>
 #include <atomic>
 #include <functional>
+#include <map>
 #include <set>
 #include <stdexcept>
 #include <string>
@@ -23,20 +25,80 @@
 
 #include "c16_sched.hh"
 
+// ---- modelled time -------------------------------------------------------------------------------
+// Tools.hh reads the clock with now() (start of the progress loop, and once per invocation of the
+// DEFAULT progress callback) and sleeps with usleep(1000000) between polls.  Both are re-targeted:
+// now() returns a scripted clock that advances by a scripted amount per usleep() call and per
+// query, so one execution can "take" microseconds, hours or centuries of modelled time.
+struct ClockScript {
+  uint64_t t0 = 1760000000000000ULL;  // clock value at the first query
+  uint64_t per_query = 0;             // advance per now() call
+  std::vector<uint64_t> steps;        // advance per usleep() call (the last entry repeats)
+};
+static struct {
+  uint64_t t = 0, elapsed = 0;
+  size_t k = 0;
+  ClockScript sc;
+} g_clk;
+static const uint64_t CLOCK_ELAPSED_CAP = 1ULL << 63;  // t0 <= 2^62: the modelled clock never wraps (time never runs backwards)
+static void clock_advance(uint64_t d) {
+  if (d > CLOCK_ELAPSED_CAP - g_clk.elapsed) d = CLOCK_ELAPSED_CAP - g_clk.elapsed;
+  g_clk.elapsed += d;
+  g_clk.t += d;
+}
+static uint64_t g_now_calls = 0;
+static uint64_t verif_now() {
+  g_now_calls++;
+  clock_advance(g_clk.sc.per_query);
+  return g_clk.t;
+}
 static uint64_t g_usleep_calls = 0;
 static int verif_usleep(useconds_t) {
   g_usleep_calls++;
+  if (!g_clk.sc.steps.empty()) {
+    clock_advance(g_clk.sc.steps[g_clk.k < g_clk.sc.steps.size() ? g_clk.k : g_clk.sc.steps.size() - 1]);
+    g_clk.k++;
+  }
   vsched::S().sleep_point(vsched::tid);
   return 0;
+}
+
+// ---- what the default progress callback prints ---------------------------------------------------
+// fprintf(stderr, ...) inside Tools.hh goes to a cookie stream: the text is kept (bounded) so the
+// harness can count which duration formats were produced; nothing reaches the driver's logs.
+static std::string g_prog_out;
+static uint64_t g_prog_bytes = 0;
+static ssize_t verif_cookie_write(void*, const char* buf, size_t n) {
+  g_prog_bytes += n;
+  if (g_prog_out.size() < (1u << 18)) g_prog_out.append(buf, n);
+  return (ssize_t)n;
+}
+static FILE* verif_progress_stream() {
+  static FILE* f = [] {
+    cookie_io_functions_t io = {nullptr, verif_cookie_write, nullptr, nullptr};
+    FILE* s = fopencookie(nullptr, "w", io);
+    if (!s) {
+      fprintf(stderr, "[harness-error] fopencookie failed\n");
+      exit(3);
+    }
+    return s;
+  }();
+  return f;
 }
 
 #define atomic verif_atomic
 #define thread verif_thread
 #define usleep verif_usleep
+#define now verif_now
+#undef stderr
+#define stderr verif_progress_stream()
 #include "Tools.hh"
 #undef atomic
 #undef thread
 #undef usleep
+#undef now
+#undef stderr
+#define stderr stderr
 
 using namespace std;
 using vf::fmt;
@@ -56,26 +118,48 @@ static uint64_t g_progress_calls = 0;
 enum Kind { RANGE = 0, BLOCKS = 1, MULTI = 2 };
 static const char* kind_name[] = {"range", "blocks", "multi"};
 
+enum Progress { P_NONE = 0, P_RECORDING = 1, P_DEFAULT = 2 };
+
 struct Cfg {
   Kind kind;
   int nthreads;
   int64_t start;
-  int n;
+  int64_t n;
   int block;
   uint64_t truth_lo;      // bit i = callback returns true for start+i (i < 64)
   vector<uint8_t> truth;  // for n > 64
-  bool progress;
+  int progress;           // P_NONE: nullptr; P_RECORDING: harness callback; P_DEFAULT: the argument is NOT passed
   const char* type;
-  bool truth_at(int i) const { return truth.empty() ? ((truth_lo >> i) & 1) : truth[i]; }
-  int hits() const {
-    int h = 0;
-    for (int i = 0; i < n; i++) h += truth_at(i);
+  // huge ranges (only with an early hit, or nobody would live to see the end): indices of the hits
+  bool big = false;
+  vector<int64_t> big_hits;
+  ClockScript clock;
+  uint64_t plan = 0;
+  bool truth_at(int64_t i) const {
+    if (big) return std::find(big_hits.begin(), big_hits.end(), i) != big_hits.end();
+    return truth.empty() ? (i < 64 && ((truth_lo >> i) & 1)) : truth[i];
+  }
+  int64_t hits() const {
+    if (big) return (int64_t)big_hits.size();
+    int64_t h = 0;
+    for (int64_t i = 0; i < n; i++) h += truth_at(i);
     return h;
   }
   string str() const {
     string t;
-    for (int i = 0; i < n && i < 80; i++) t += truth_at(i) ? '1' : '0';
-    return fmt("%s<%s> threads=%d start=%" PRId64 " n=%d block=%d truth=%s progress=%d", kind_name[kind], type, nthreads, start, n, block, t.c_str(), progress);
+    if (big) {
+      t = "hits@";
+      for (auto h : big_hits) t += fmt("%" PRId64 ",", h);
+    } else
+      for (int64_t i = 0; i < n && i < 80; i++) t += truth_at(i) ? '1' : '0';
+    string r = fmt("%s<%s> threads=%d start=%" PRId64 " n=%" PRId64 " block=%d truth=%s progress=%s", kind_name[kind], type, nthreads, start, n, block, t.c_str(),
+        progress == P_DEFAULT ? "DEFAULT(argument omitted)" : progress == P_RECORDING ? "recording" : "nullptr");
+    if (progress == P_DEFAULT) {
+      r += fmt(" clock{plan=%" PRIu64 " t0=%" PRIu64 " per_query=%" PRIu64 " usleep_steps=", plan, clock.t0, clock.per_query);
+      for (auto d : clock.steps) r += fmt("%" PRIu64 ",", d);
+      r += "}";
+    }
+    return r;
   }
 };
 
@@ -92,6 +176,54 @@ static string sched_str(const vector<uint8_t>& s) {
   return r;
 }
 
+// ---- what the default callback printed: coverage only, never a verdict ---------------------------
+// One record per invocation: "... %08X (<elapsed> / -<remaining>)\r".  The duration texts are classified
+// by format range (sub-second, seconds, minutes, hours, days, huge) and by the width of the seconds
+// field (s1 = single digit before padding, s2 = two digits) - the statement says nothing about the
+// text, so it is counted, not judged.
+static string duration_class(const string& d) {
+  if (d == "...") return "none";
+  size_t colons = std::count(d.begin(), d.end(), ':');
+  size_t last = d.rfind(':');
+  string sec = last == string::npos ? d : d.substr(last + 1);
+  size_t intdigits = sec.find('.') == string::npos ? sec.size() : sec.find('.');
+  if (colons == 0) {
+    if (d.size() > 1 && d[0] == '0' && d[1] == '.') return "subsec";
+    return intdigits <= 1 ? "sec:s1" : "sec:s2";
+  }
+  const char* range = colons == 1 ? "min" : colons == 2 ? "hours" : "days";
+  if (colons >= 3 && d.find(':') > 4) range = "huge";  // >= 10000 days
+  bool single = intdigits <= 1 || sec[0] == '0';
+  return string(range) + (single ? ":s1" : ":s2");
+}
+
+static void digest_progress_output(const Cfg& cfg, bool completed) {
+  fflush(verif_progress_stream());
+  size_t pos = 0, records = 0;
+  while (pos < g_prog_out.size()) {
+    size_t e = g_prog_out.find('\r', pos);
+    if (e == string::npos) e = g_prog_out.size();
+    string rec = g_prog_out.substr(pos, e - pos);
+    pos = e + 1;
+    size_t o = rec.find(" ("), m = rec.find(" / -"), cl = rec.rfind(')');
+    if (o == string::npos || m == string::npos || cl == string::npos || m < o || cl < m) {
+      C->count("defprog_unparsed_records");
+      continue;
+    }
+    records++;
+    string el = duration_class(rec.substr(o + 2, m - o - 2)), rem = duration_class(rec.substr(m + 4, cl - m - 4));
+    C->cls("defprog:elapsed:" + el);
+    C->cls("defprog:remaining:" + rem);
+    C->cls(fmt("defprog:printed:%s:%s:start%s", kind_name[cfg.kind], cfg.type, cfg.start == 0 ? "0" : cfg.start < 0 ? "neg" : "pos"));
+    if (records <= 1 && (C->counters["defprog_callback_records"] % 977) == 0) C->sample("default progress text: " + rec + "   [" + cfg.str() + "]", 10);
+  }
+  C->count("defprog_callback_records", records);
+  C->count("defprog_bytes_printed", g_prog_bytes);
+  if (records) C->count(completed ? "defprog_executions_with_callback" : "defprog_executions_aborted_in_callback");
+  g_prog_out.clear();
+  g_prog_bytes = 0;
+}
+
 template <typename IntT>
 static Exec run_once(const Cfg& cfg, vsched::Sched::Mode mode, uint64_t seed, const vector<uint16_t>& prefix) {
   auto& S = vsched::S();
@@ -99,32 +231,56 @@ static Exec run_once(const Cfg& cfg, vsched::Sched::Mode mode, uint64_t seed, co
   IntT start = (IntT)cfg.start, end = (IntT)(cfg.start + cfg.n);
   std::function<bool(IntT, size_t)> fn = [&](IntT v, size_t tn) -> bool {
     int64_t idx = (int64_t)v - cfg.start;
-    bool r = (idx >= 0 && idx < cfg.n) ? cfg.truth_at((int)idx) : false;
+    bool r = (idx >= 0 && idx < cfg.n) ? cfg.truth_at(idx) : false;
     events.push_back({(int64_t)v, tn, r, S.returned, vsched::tid});
     return r;
   };
   std::function<void(IntT, IntT, IntT, uint64_t)> prog = nullptr;
-  if (cfg.progress) prog = [&](IntT, IntT, IntT, uint64_t) { g_progress_calls++; };
-  C->crumb_s("exec " + cfg.str());
+  if (cfg.progress == P_RECORDING) prog = [&](IntT, IntT, IntT, uint64_t) { g_progress_calls++; };
+  {
+    // the breadcrumb names the exact execution: configuration, clock script, scheduler mode + seed / forced DFS choices
+    string cr = "exec " + cfg.str() + fmt(" sched=%s seed=%" PRIu64 " dfs_prefix=", mode == vsched::Sched::DFS ? "dfs" : mode == vsched::Sched::PCT ? "pct" : "uniform", seed);
+    for (size_t i = 0; i < prefix.size() && i < 200; i++) cr += fmt("%u,", prefix[i]);
+    C->crumb_s(cr);
+  }
+  g_clk.sc = cfg.clock;
+  g_clk.t = cfg.clock.t0;
+  g_clk.elapsed = 0;
+  g_clk.k = 0;
   S.begin(mode, seed, prefix);
   IntT result = end;
   unordered_set<IntT> multi;
   bool threw = false;
   string what;
+  const size_t nt = (size_t)cfg.nthreads;
+  const IntT bs = (IntT)cfg.block;
   try {
-    switch (cfg.kind) {
-      case RANGE: result = phosg::parallel_range<IntT>(fn, start, end, cfg.nthreads, prog); break;
-      case BLOCKS: result = phosg::parallel_range_blocks<IntT>(fn, start, end, (IntT)cfg.block, cfg.nthreads, prog); break;
-      case MULTI: multi = phosg::parallel_range_blocks_multi<IntT>(fn, start, end, (IntT)cfg.block, cfg.nthreads, prog); break;
+    if (cfg.progress == P_DEFAULT) {
+      // the plain call: no progress argument (and no thread count either when cfg.nthreads == 0)
+      switch (cfg.kind) {
+        case RANGE: result = nt ? phosg::parallel_range<IntT>(fn, start, end, nt) : phosg::parallel_range<IntT>(fn, start, end); break;
+        case BLOCKS: result = nt ? phosg::parallel_range_blocks<IntT>(fn, start, end, bs, nt) : phosg::parallel_range_blocks<IntT>(fn, start, end, bs); break;
+        case MULTI: multi = nt ? phosg::parallel_range_blocks_multi<IntT>(fn, start, end, bs, nt) : phosg::parallel_range_blocks_multi<IntT>(fn, start, end, bs); break;
+      }
+    } else {
+      switch (cfg.kind) {
+        case RANGE: result = phosg::parallel_range<IntT>(fn, start, end, nt, prog); break;
+        case BLOCKS: result = phosg::parallel_range_blocks<IntT>(fn, start, end, bs, nt, prog); break;
+        case MULTI: multi = phosg::parallel_range_blocks_multi<IntT>(fn, start, end, bs, nt, prog); break;
+      }
     }
   } catch (const std::exception& e) {
     threw = true;
     what = e.what();
+  } catch (...) {
+    threw = true;
+    what = "(not a std::exception)";
   }
   S.returned = true;
   int alive = S.alive_workers();
   bool deadlock = S.deadlock;
   S.end();
+  if (cfg.progress == P_DEFAULT) digest_progress_output(cfg, !threw);
   Exec ex;
   ex.trace = S.trace;
   ex.sched = S.sched_trace;
@@ -140,12 +296,14 @@ static Exec run_once(const Cfg& cfg, vsched::Sched::Mode mode, uint64_t seed, co
     for (auto& c : ex.trace) choices += fmt("%u/%u,", c.chosen, c.options);
     C->violation(key, what2, cfg.str() + " schedule(thread ids per atomic step)=" + sched_str(ex.sched) + " dfs_choices=" + choices);
   };
-  const char* k = kind_name[cfg.kind];
+  // executions with the default progress callback get their own key family: the laws are the same
+  const string kk = string(cfg.progress == P_DEFAULT ? "defprog:" : "") + kind_name[cfg.kind];
+  const char* k = kk.c_str();
   if (threw) bad(fmt("%s:unexpected-exception", k), "call threw: " + what);
   if (deadlock) bad(fmt("%s:scheduler-deadlock", k), "no runnable thread while some are unfinished");
   if (alive) bad(fmt("%s:workers-alive-at-return", k), fmt("%d worker thread(s) not finished (not joined) when the call returned", alive));
   // event laws
-  vector<int> cnt(cfg.n, 0);
+  std::map<int64_t, int> cnt;  // invocations per index
   bool any_true = false;
   set<int64_t> true_invoked;
   for (auto& e : events) {
@@ -163,21 +321,27 @@ static Exec run_once(const Cfg& cfg, vsched::Sched::Mode mode, uint64_t seed, co
       true_invoked.insert(e.v);
     }
   }
-  for (int i = 0; i < cfg.n; i++)
-    if (cnt[i] > 1) bad(fmt("%s:value-invoked-twice", k), fmt("value %" PRId64 " invoked %d times", cfg.start + i, cnt[i]));
-  if (cfg.kind == MULTI) {
-    for (int i = 0; i < cfg.n; i++)
-      if (cnt[i] != 1) bad("multi:value-not-exactly-once", fmt("value %" PRId64 " invoked %d times", cfg.start + i, cnt[i]));
+  for (auto& kv : cnt)
+    if (kv.second > 1) bad(fmt("%s:value-invoked-twice", k), fmt("value %" PRId64 " invoked %d times", cfg.start + kv.first, kv.second));
+  auto count_of = [&](int64_t i) {
+    auto it = cnt.find(i);
+    return it == cnt.end() ? 0 : it->second;
+  };
+  if (cfg.kind == MULTI && threw && cfg.progress == P_DEFAULT) {
+    // no set was returned: the exception and the un-joined workers are the witnesses, not one report per unvisited value
+  } else if (cfg.kind == MULTI) {
+    for (int64_t i = 0; i < cfg.n; i++)
+      if (count_of(i) != 1) bad(fmt("%s:value-not-exactly-once", k), fmt("value %" PRId64 " invoked %d times", cfg.start + i, count_of(i)));
     set<int64_t> got;
     for (auto v : multi) got.insert((int64_t)v);
     set<int64_t> want;
-    for (int i = 0; i < cfg.n; i++)
+    for (int64_t i = 0; i < cfg.n; i++)
       if (cfg.truth_at(i)) want.insert(cfg.start + i);
-    if (got != want) bad("multi:result-set", fmt("returned set has %zu elements, true-set has %zu", got.size(), want.size()));
+    if (got != want) bad(fmt("%s:result-set", k), fmt("returned set has %zu elements, true-set has %zu", got.size(), want.size()));
   } else if (!threw) {
     if (cfg.hits() == 0) {
-      for (int i = 0; i < cfg.n; i++)
-        if (cnt[i] != 1) bad(fmt("%s:value-not-exactly-once", k), fmt("no callback returns true, value %" PRId64 " invoked %d times", cfg.start + i, cnt[i]));
+      for (int64_t i = 0; i < cfg.n; i++)
+        if (count_of(i) != 1) bad(fmt("%s:value-not-exactly-once", k), fmt("no callback returns true, value %" PRId64 " invoked %d times", cfg.start + i, count_of(i)));
       if ((int64_t)result != cfg.start + cfg.n) bad(fmt("%s:return-not-end", k), fmt("returned %" PRId64 " instead of end_value", (int64_t)result));
     } else {
       if (!any_true) bad(fmt("%s:no-true-invocation", k), "some value is a hit but no invocation returned true (scan stopped early)");
@@ -188,14 +352,89 @@ static Exec run_once(const Cfg& cfg, vsched::Sched::Mode mode, uint64_t seed, co
   return ex;
 }
 
-template <typename IntT>
-static void dfs_config(const Cfg& cfg, uint64_t max_exec, uint64_t* total_dfs, uint64_t* exhaustive_cfgs) {
+static Exec run_typed(const Cfg& cfg, vsched::Sched::Mode mode, uint64_t seed, const vector<uint16_t>& prefix) {
+  string ty = cfg.type;
+  if (ty == "u64") return run_once<uint64_t>(cfg, mode, seed, prefix);
+  if (ty == "i64") return run_once<int64_t>(cfg, mode, seed, prefix);
+  if (ty == "u32") return run_once<uint32_t>(cfg, mode, seed, prefix);
+  if (ty == "i32") return run_once<int32_t>(cfg, mode, seed, prefix);
+  if (ty == "u16") return run_once<uint16_t>(cfg, mode, seed, prefix);
+  if (ty == "i16") return run_once<int16_t>(cfg, mode, seed, prefix);
+  if (ty == "u8") return run_once<uint8_t>(cfg, mode, seed, prefix);
+  fprintf(stderr, "[harness-error] unknown type %s\n", ty.c_str());
+  exit(3);
+}
+
+// ---- clock scripts ------------------------------------------------------------------------------------
+// A plan number selects the script deterministically (so a breadcrumb / witness is replayable).  The
+// FIRST usleep step walks a ladder of duration classes (so the elapsed time seen by the second poll
+// sweeps every format range of format_duration with single- and double-digit seconds fields, the
+// range boundaries +-1us, rounding edges of the seconds field, the nominal 1 s, and huge values);
+// later steps are drawn at random from the same ladder.  The estimated remaining time is
+// elapsed * (n - claimed) / claimed, so with tiny ranges (n = 2: remaining == elapsed) it sweeps the
+// same ladder and with larger / huge ranges it is spread over neighbouring and far ranges
+// (elapsed * (end - start) wraps uint64 for huge ones).
+static const uint64_t US = 1000000ULL;
+static const int N_DURATION_CLASSES = 12;
+static uint64_t g_plan_seed = 1, g_plan_counter = 0;
+
+static uint64_t draw_duration(vf::Rng& r, int cls) {
+  auto secs = [&](bool single) { return single ? r.below(9400001) : 10 * US + r.below(49400001); };  // [0,9.4] s / [10,59.4] s
+  switch (cls) {
+    case 0: return r.chance(1, 8) ? 0 : r.chance(1, 4) ? r.below(1000) : r.below(US);
+    case 1: return US + r.below(8400001);
+    case 2: return 10 * US + r.below(49900001);
+    case 3: case 4: return (1 + r.below(59)) * 60 * US + secs(cls == 3);
+    case 5: case 6: return (1 + r.below(23)) * 3600 * US + r.below(60) * 60 * US + secs(cls == 5);
+    case 7: case 8: return (1 + (r.chance(1, 4) ? r.below(9999) : r.below(400))) * 86400 * US + r.below(24) * 3600 * US + r.below(60) * 60 * US + secs(cls == 7);
+    case 9: {  // huge: >= 10^4 days up to 2^63 us
+      if (r.chance(1, 2)) return (10000 + r.below(10000000)) * 86400 * US + r.below(86400 * US);
+      uint64_t v = 1ULL << (50 + r.below(14));
+      return v - 2 + r.below(5) + (r.chance(1, 2) ? r.below(v / 2) : 0);
+    }
+    case 10: {  // boundaries of the format ranges and rounding edges of the seconds field
+      static const uint64_t edge[] = {US, 60 * US, 3600 * US, 86400 * US, 10 * US, 3600 * US + 10 * US, 86400 * US + 10 * US,
+          3600 * US + 9 * US + 500000, 3600 * US + 9 * US + 499999, 3600 * US + 59 * US + 500000, 86400 * US + 9 * US + 500000,
+          2 * 86400 * US + 59 * US + 999999, 60 * US + 9 * US + 999500, 60 * US + 59 * US + 999500, 9 * US + 999999, 59 * US + 999999,
+          3600 * US + 500000, 3600 * US + 499999, 86400 * US + 499999, 7200 * US, 1800 * 2000123ULL, 3599 * US + 999999};
+      uint64_t e = edge[r.below(sizeof(edge) / sizeof(edge[0]))];
+      return e - 1 + r.below(3);
+    }
+    default: return US + (r.chance(1, 2) ? r.below(200) : r.below(6000));  // what usleep(1000000) really takes
+  }
+}
+
+static ClockScript make_clock(uint64_t plan) {
+  vf::Rng r(g_plan_seed * 1000003ULL + plan * 7919ULL + 17);
+  ClockScript sc;
+  switch ((plan / N_DURATION_CLASSES) % 4) {
+    case 0: sc.t0 = 1760000000000000ULL + r.below(1000000000000ULL); break;
+    case 1: sc.t0 = 0; break;
+    case 2: sc.t0 = 1 + r.below(100000); break;
+    default: sc.t0 = 1ULL << 62; break;
+  }
+  static const uint64_t pq[] = {0, 0, 1, 7, 2500};
+  sc.per_query = pq[r.below(5)];
+  size_t len = 1 + r.below(5);
+  for (size_t i = 0; i < len; i++) {
+    int cls = i == 0 ? (int)(plan % N_DURATION_CLASSES) : (r.chance(1, 2) ? N_DURATION_CLASSES - 1 : (int)r.below(N_DURATION_CLASSES));
+    sc.steps.push_back(draw_duration(r, cls));
+  }
+  return sc;
+}
+
+static void dfs_config(Cfg cfg, uint64_t max_exec, uint64_t* total_dfs, uint64_t* exhaustive_cfgs) {
   vector<uint16_t> prefix;
   uint64_t n = 0;
   bool complete = false;
   size_t maxlen = 0;
   for (;;) {
-    Exec ex = run_once<IntT>(cfg, vsched::Sched::DFS, 0, prefix);
+    if (cfg.progress == P_DEFAULT) {
+      // a different clock script for every interleaving: the clock never influences a scheduling decision
+      cfg.plan = g_plan_counter++;
+      cfg.clock = make_clock(cfg.plan);
+    }
+    Exec ex = run_typed(cfg, vsched::Sched::DFS, 0, prefix);
     n++;
     if (ex.sched.size() > maxlen) maxlen = ex.sched.size();
     if (n == 1 || (n % 5000) == 3) C->sample("dfs " + cfg.str() + " schedule=" + sched_str(ex.sched), 8);
@@ -223,11 +462,13 @@ static void dfs_config(const Cfg& cfg, uint64_t max_exec, uint64_t* total_dfs, u
   C->count("distinct_interleavings", n);  // DFS leaves are pairwise distinct by construction
   if (complete) C->count("configs_enumerated_completely");
   else C->count("configs_dfs_truncated");
-  C->cls(fmt("dfs:%s:%s:t%d:n%d:b%d:hits%d%s:%s", kind_name[cfg.kind], cfg.type, cfg.nthreads, cfg.n, cfg.block, cfg.hits() > 2 ? 3 : cfg.hits(), cfg.progress ? ":progress" : "", complete ? "complete" : "truncated"));
+  if (cfg.progress == P_DEFAULT)
+    C->cls(fmt("dfs:%s:%s:t%d:defprog:start%s:%s", kind_name[cfg.kind], cfg.type, cfg.nthreads, cfg.start == 0 ? "0" : cfg.start < 0 ? "neg" : "pos", complete ? "complete" : "truncated"));
+  else
+    C->cls(fmt("dfs:%s:%s:t%d:n%d:b%d:hits%d%s:%s", kind_name[cfg.kind], cfg.type, cfg.nthreads, (int)cfg.n, cfg.block, cfg.hits() > 2 ? 3 : (int)cfg.hits(), cfg.progress ? ":progress" : "", complete ? "complete" : "truncated"));
   (void)maxlen;
 }
 
-template <typename IntT>
 static void add_small_cfgs(vector<Cfg>& out, const char* type, int64_t start, int threads, int maxn, bool progress) {
   for (int n = 0; n <= maxn; n++)
     for (uint64_t mask = 0; mask < (1ULL << n); mask++) {
@@ -240,21 +481,160 @@ static void add_small_cfgs(vector<Cfg>& out, const char* type, int64_t start, in
     }
 }
 
+// ---- the plain call: progress argument omitted ------------------------------------------------------
+// parallel_range(fn, a, b, n) - the most common way to call these functions - polls the cursor on the
+// calling thread while the workers are joinable and runs parallel_range_default_progress_fn between
+// polls.  Whatever that callback does with the clock and the cursor value it sees, the statement's
+// laws are the same as for every other execution: right return value, exactly-once visits, workers
+// joined, no exception, no crash.
+static void add_defprog_cfgs(vector<Cfg>& out, const char* type, int64_t start, int threads, int minn, int maxn) {
+  for (int n = minn; n <= maxn; n++) {
+    vector<uint64_t> masks = {0};
+    if (n >= 1) masks.push_back(1);
+    if (n >= 2) masks.push_back(1ULL << (n - 1));
+    for (uint64_t mask : masks) {
+      out.push_back({RANGE, threads, start, n, 1, mask, {}, P_DEFAULT, type});
+      out.push_back({BLOCKS, threads, start, n, 1, mask, {}, P_DEFAULT, type});
+      out.push_back({MULTI, threads, start, n, (n >= 2 && n % 2 == 0) ? 2 : 1, mask, {}, P_DEFAULT, type});
+    }
+  }
+}
+
+static void defprog_family(vf::Ctx& c, vf::Rng& r, bool nonzero) {
+  uint64_t total_dfs = 0, exh = 0;
+  g_plan_seed = c.seed * 2 + (nonzero ? 1 : 0);
+  g_plan_counter = (uint64_t)c.shard * 1000003ULL;
+  vector<Cfg> cfgs;
+  if (!nonzero) {
+    add_defprog_cfgs(cfgs, "u64", 0, 2, 0, 3);
+    add_defprog_cfgs(cfgs, "u64", 0, 1, 1, 2);
+    add_defprog_cfgs(cfgs, "u64", 0, 0, 0, 2);  // neither a thread count nor a progress callback is passed
+    add_defprog_cfgs(cfgs, "i64", 0, 2, 1, 2);
+    add_defprog_cfgs(cfgs, "u32", 0, 2, 2, 2);
+    add_defprog_cfgs(cfgs, "u8", 0, 2, 2, 2);
+  } else {
+    add_defprog_cfgs(cfgs, "u64", 5, 2, 0, 3);
+    add_defprog_cfgs(cfgs, "u64", 100000, 1, 1, 2);
+    add_defprog_cfgs(cfgs, "u64", 7, 0, 0, 2);
+    add_defprog_cfgs(cfgs, "i64", -2, 2, 1, 3);  // crosses zero: -2, -1, 0
+    add_defprog_cfgs(cfgs, "i64", -7, 2, 2, 2);  // entirely negative
+    add_defprog_cfgs(cfgs, "i32", -2, 2, 2, 3);
+    add_defprog_cfgs(cfgs, "i16", -1, 2, 2, 2);
+    add_defprog_cfgs(cfgs, "u16", 65000, 2, 2, 2);
+    add_defprog_cfgs(cfgs, "u8", 200, 2, 2, 2);
+  }
+  uint64_t cap = c.qt<uint64_t>(16, 1000);
+  if (!c.arg("dfs_cap").empty()) cap = strtoull(c.arg("dfs_cap").c_str(), nullptr, 0);
+  for (size_t i = 0; i < cfgs.size(); i++) {
+    if (!c.mine(i)) continue;
+    if (c.nviol() > 40) break;
+    dfs_config(cfgs[i], cap, &total_dfs, &exh);
+  }
+
+  uint64_t nrand = c.qt<uint64_t>(2400, 100000) / c.nshards + 1;
+  if (!c.arg("nrand").empty()) nrand = strtoull(c.arg("nrand").c_str(), nullptr, 0);
+  set<uint64_t> distinct;
+  struct Ty {
+    const char* name;
+    int bits;
+    bool sgn;
+  };
+  static const Ty tys[] = {{"u64", 64, false}, {"u64", 64, false}, {"u64", 64, false}, {"i64", 64, true}, {"i64", 64, true},
+      {"u32", 32, false}, {"i32", 32, true}, {"u16", 16, false}, {"i16", 16, true}, {"u8", 8, false}};
+  for (uint64_t i = 0; i < nrand && c.nviol() <= 40; i++) {
+    Cfg cfg;
+    const Ty& ty = tys[r.below(sizeof(tys) / sizeof(tys[0]))];
+    cfg.type = ty.name;
+    cfg.progress = P_DEFAULT;
+    cfg.kind = (Kind)r.below(3);
+    cfg.nthreads = r.chance(1, 10) ? 0 : (int)r.range(1, 8);
+    cfg.block = 1;
+    cfg.truth_lo = 0;
+    int shape = (int)r.below(20);  // 0..11 small, 12..14 mid, 15..19 huge with an early hit
+    bool big = shape >= 15 && cfg.kind != MULTI && ty.bits >= 32;
+    bool mid = !big && shape >= 12 && ty.bits >= 16;
+    if (cfg.kind != RANGE) {
+      static const int bss[] = {1, 2, 3, 4, 8, 16};
+      cfg.block = bss[r.below(6)];
+    }
+    int style = (int)r.below(4);  // 0 none, 1 one hit, 2 few, 3 many
+    if (big) {
+      int k = ty.bits == 64 ? (int)r.range(17, 44) : ty.sgn ? (int)r.range(17, 29) : (int)r.range(17, 30);
+      cfg.n = ((int64_t)1 << k) + (int64_t)r.below(5000);
+      cfg.n -= cfg.n % cfg.block;
+      cfg.big = true;
+      for (int h = 0, nh = 1 + (int)r.below(3); h < nh; h++) cfg.big_hits.push_back((int64_t)r.below(10));
+      style = 1;
+    } else {
+      int64_t maxn = mid ? 600 : 64;
+      cfg.n = cfg.block * (int64_t)r.below(maxn / cfg.block + 1);
+      if (mid && cfg.n < 65) cfg.n = cfg.block * (65 / cfg.block + 1);
+      cfg.truth.assign(cfg.n, 0);
+      if (mid && style >= 2) style = (int)r.below(2);
+      if (cfg.n) {
+        if (style == 1) cfg.truth[r.below(cfg.n)] = 1;
+        else if (style == 2) for (int k = 0; k < 3; k++) cfg.truth[r.below(cfg.n)] = 1;
+        else if (style == 3) for (int64_t k = 0; k < cfg.n; k++) cfg.truth[k] = r.chance(1, 2);
+      }
+      if (cfg.truth.empty()) cfg.truth.push_back(0);
+    }
+    // start: 0 in one stage; in the other positive, negative-crossing-zero or entirely negative, with
+    // end + threads * block inside the type (the over-claim past the end is inherent to the design)
+    cfg.start = 0;
+    if (nonzero) {
+      int64_t slack = cfg.n + 9 * (int64_t)cfg.block + 2;
+      int64_t tmax = ty.bits == 64 ? ((int64_t)1 << 62) : ty.sgn ? (((int64_t)1 << (ty.bits - 1)) - 1) : (((int64_t)1 << ty.bits) - 1);
+      int64_t room = tmax - slack;
+      int pick = (int)r.below(ty.sgn ? 6 : 3);
+      if (room < 1) room = 1;
+      if (pick == 0) cfg.start = 1 + (int64_t)r.below(std::min<int64_t>(room, 9));
+      else if (pick == 1) cfg.start = 1 + (int64_t)r.below(std::min<int64_t>(room, 100000));
+      else if (pick == 2) cfg.start = 1 + (int64_t)r.below(room);
+      else if (pick == 3 || pick == 4) cfg.start = -(1 + (int64_t)r.below(std::min<int64_t>(cfg.n > 1 ? cfg.n - 1 : 1, 100)));  // crosses zero when n > 1
+      else cfg.start = -(cfg.n + 1 + (int64_t)r.below(100));  // entirely negative
+      if (ty.sgn && cfg.start < 0 && -cfg.start > tmax) cfg.start = -tmax;
+    }
+    cfg.plan = g_plan_counter++;
+    cfg.clock = make_clock(cfg.plan);
+    // PCT may let one worker run alone for ever: fine for 64 values, not for 2^40
+    vsched::Sched::Mode md = (big || r.chance(1, 2)) ? vsched::Sched::RANDOM : vsched::Sched::PCT;
+    Exec ex = run_typed(cfg, md, r.next(), {});
+    distinct.insert(ex.hash);
+    c.count("random_executions");
+    c.count("defprog_sampled_executions");
+    c.cls(fmt("sampled-defprog:%s:%s:%s:start%s", kind_name[cfg.kind], big ? "huge-range" : mid ? "mid" : "small",
+        style == 0 ? "nohit" : style == 1 ? "onehit" : "manyhits", cfg.start == 0 ? "0" : cfg.start < 0 ? "neg" : "pos"));
+    if (cfg.nthreads == 0) c.cls(fmt("sampled-defprog:%s:all-defaults", kind_name[cfg.kind]));
+    if (i < 2) c.sample("sampled " + cfg.str() + " schedule=" + sched_str(ex.sched), 8);
+  }
+  c.count("distinct_interleavings", distinct.size());
+  c.count("usleep_calls_modelled", g_usleep_calls);
+  c.count("now_calls_modelled", g_now_calls);
+}
+
 int main(int argc, char** argv) {
   vf::Ctx& c = vf::init(argc, argv);
   C = &c;
   vf::Rng r = c.rng();
   uint64_t total_dfs = 0, exh = 0;
 
+  // ---- plain calls (default progress callback) under modelled time: separate stages ----------------
+  if (c.arg("only") == "defprog0" || c.arg("only") == "defprogN") {
+    defprog_family(c, r, c.arg("only") == "defprogN");
+    int rc = c.finish();
+    fflush(nullptr);
+    _exit(rc);
+  }
+
   // ---- systematic enumeration --------------------------------------------------------------
   vector<Cfg> cfgs;
-  add_small_cfgs<uint64_t>(cfgs, "u64", 0, 2, 4, false);           // 2 threads x ranges 0..4 x all truth masks
-  add_small_cfgs<uint64_t>(cfgs, "u64", 0, 3, c.qt(2, 3), false);  // 3 threads x ranges 0..2 (quick) / 0..3 (thorough)
-  add_small_cfgs<uint64_t>(cfgs, "u64", 0, 1, 3, false);           // single worker
-  add_small_cfgs<uint64_t>(cfgs, "u64", 0, 0, 2, false);           // num_threads = 0: the documented default (shim reports 2 cores)
-  add_small_cfgs<uint64_t>(cfgs, "u64", 0, 2, 2, true);            // with a progress callback polling the cursor
-  add_small_cfgs<int32_t>(cfgs, "i32", -2, 2, 3, false);           // negative start, signed cursor
-  add_small_cfgs<uint8_t>(cfgs, "u8", 200, 2, 3, false);           // narrow cursor type
+  add_small_cfgs(cfgs, "u64", 0, 2, 4, false);           // 2 threads x ranges 0..4 x all truth masks
+  add_small_cfgs(cfgs, "u64", 0, 3, c.qt(2, 3), false);  // 3 threads x ranges 0..2 (quick) / 0..3 (thorough)
+  add_small_cfgs(cfgs, "u64", 0, 1, 3, false);           // single worker
+  add_small_cfgs(cfgs, "u64", 0, 0, 2, false);           // num_threads = 0: the documented default (shim reports 2 cores)
+  add_small_cfgs(cfgs, "u64", 0, 2, 2, true);            // with a progress callback polling the cursor
+  add_small_cfgs(cfgs, "i32", -2, 2, 3, false);           // negative start, signed cursor
+  add_small_cfgs(cfgs, "u8", 200, 2, 3, false);           // narrow cursor type
   if (c.thorough()) {
     // 3 threads x 4 values: too many interleavings to finish; bounded DFS (reported as truncated)
     for (uint64_t mask : {0ULL, 1ULL, 4ULL, 8ULL, 9ULL, 15ULL}) cfgs.push_back({RANGE, 3, 0, 4, 1, mask, {}, false, "u64"});
@@ -266,10 +646,7 @@ int main(int argc, char** argv) {
   for (size_t i = 0; i < cfgs.size(); i++) {
     if (!c.mine(i)) continue;
     if (c.nviol() > 40) break;
-    string ty = cfgs[i].type;
-    if (ty == "u64") dfs_config<uint64_t>(cfgs[i], cap, &total_dfs, &exh);
-    else if (ty == "i32") dfs_config<int32_t>(cfgs[i], cap, &total_dfs, &exh);
-    else dfs_config<uint8_t>(cfgs[i], cap, &total_dfs, &exh);
+    dfs_config(cfgs[i], cap, &total_dfs, &exh);
   }
 
   // ---- random / PCT sampling of larger configurations -------------------------------------------
@@ -300,7 +677,7 @@ int main(int argc, char** argv) {
     }
     if (cfg.truth.empty()) cfg.truth.push_back(0);
     vsched::Sched::Mode md = r.chance(1, 2) ? vsched::Sched::RANDOM : vsched::Sched::PCT;
-    Exec ex = run_once<uint64_t>(cfg, md, r.next(), {});
+    Exec ex = run_typed(cfg, md, r.next(), {});
     distinct.insert(ex.hash);
     c.count("random_executions");
     c.cls(fmt("sampled:%s:t%d:%s:%s", kind_name[cfg.kind], cfg.nthreads, style == 0 ? "nohit" : style == 1 ? "onehit" : "manyhits", md == vsched::Sched::PCT ? "pct" : "uniform"));
